@@ -353,6 +353,8 @@ func (g *gen) field(fieldName string, fieldType types.Type) (string, error) {
 			if hasHashMethod(named) {
 				return fmt.Sprintf("uint64(%s.Hash())", wrap(fieldName)), nil
 			}
+		} else {
+			return "", fmt.Errorf("unsupported type: a struct without a name: %s", g.TypeString(fieldType))
 		}
 		return fmt.Sprintf("%s(%s)", g.GetFuncName(fieldType), fieldName), nil
 	}
